@@ -46,6 +46,9 @@ MULTI = [
     {"p": "r4/u", "k": "file", "c": ["base", 16384, 7]}, {"p": "r1/u2", "k": "file", "c": ["flip", 16384, 7, 16383]},
     {"p": "r3/v", "k": "file", "c": ["base", 65536, 8]}, {"p": "r1/v", "k": "file", "c": ["base", 65536, 8]},
     {"p": "r2/w", "k": "file", "c": ["flip", 65536, 8, 0]},
+    # between every --max-prefix-size used below and the HDD/unknown default prefix (16 KiB); equal up to the last byte
+    {"p": "r4/m1", "k": "file", "c": ["base", 12000, 9]}, {"p": "r2/m2", "k": "file", "c": ["flip", 12000, 9, 11999]},
+    {"p": "r3/m3", "k": "file", "c": ["base", 12000, 9]},
 ]
 SITES = ["scan", "rehash#0", "rehash#1", "rehash#2"]
 
@@ -100,7 +103,7 @@ def cases(tier, seed):
             cfgs.append((["--hash-fn", h], d))
     for px in (None, "1", "8192", "1MiB"):
         for sx in (None, "1", "1MiB"):
-            for d in (("ssd",) if quick else ("ssd", "unknown")):
+            for d in (("ssd", "unknown") if quick else ("ssd", "unknown", "hdd")):
                 a = []
                 if px:
                     a += ["--max-prefix-size", px]
